@@ -46,6 +46,13 @@ CHECKS = {
         "Trusted: the harness components; identity order as reference. Cycles with positive-but-insufficient delay are excluded (C04 accepts either outcome there).",
         "DESIGN.md section 4, C05",
     ),
+    "C06": (
+        "model_checking",
+        "exhaustive enumeration of dependency shapes of the connect phase, each executed through the real Composition.connect under all component listing orders and link creation orders; least-fixpoint reference of derivable exchange items and a per-call status rule as oracles; call cap for termination",
+        "Every shape of metadata / initial-data dependency within the bound is run under every schedule the iterative connect can take (all listing and link orders); the outcome must be success with complete infos, initial publications at composition start and own start and exact initial values, or a circular-coupling error naming exactly the components the fixpoint model cannot complete; every single connect call's reported status is checked against what was observably exchanged.",
+        "Trusted: fixpoint model and harness nodes in harness/cnode.py; <=3 components (<=2 slots per side), offsets {0,1,2}; the separate helper-layer search of single connect calls with scripted peers described in DESIGN.md is not built (the per-call rule is checked on every call inside the compositions instead).",
+        "DESIGN.md section 3 (engine B) and section 4, C06",
+    ),
     "C08": (
         "model_checking",
         "explicit-state BFS to a fixpoint over all push/pull interleavings on a direct link (states modulo time translation, unlimited-history reference) plus exhaustive product payload form x grid kind x unit pair and all re-publication forms on real Output/Input objects",
@@ -87,6 +94,13 @@ CHECKS = {
         "Finite products enumerated completely on the real helpers and slots; the acceptance oracle compares the sets of masked physical coordinates computed from the grids' coordinate arithmetic.",
         "Trusted: coordinate reference of C14; producer kinds the statement does not classify are accepted either way.",
         "DESIGN.md section 4, C18",
+    ),
+    "C19": (
+        "exploration",
+        "bounded-exhaustive enumeration of link topologies (source kind x adapter chain x sink kind x fan-out position x missing component x unconnected input) on the real Composition.connect against an independent predicate of the five rejection rules; reported link list vs created links",
+        "Finite product enumerated completely: connect() must raise FinamConnectError exactly when the predicate rejects, and then before any component connect callback ran; otherwise validation passes and on success metadata['links'] equals the multiset of created links.",
+        "Trusted: the predicate in checks/c19.py; chains of <=2 (quick) / <=3 (thorough) adapters over five adapter kinds.",
+        "DESIGN.md section 4, C19",
     ),
     "C20": (
         "model_checking",
